@@ -315,6 +315,13 @@ async fn http1_conn(mut stream: SimStream, col: Arc<Collector>, host: HostCfg, c
         if !ok {
             return;
         }
+        // servers close connections they consider idle (or send `connection: close` semantics without saying so):
+        // the client finds out when it next uses the connection
+        if col.sched.lock().choices.chance(1, 12) {
+            *col.fired.lock().unwrap().entry("server_closed_kept_alive_connection").or_insert(0) += 1;
+            col.note(format!("conn {conn}: closed by the server after the response (idle timeout)"));
+            return;
+        }
     }
 }
 
@@ -682,6 +689,7 @@ fn emit_one(otlp: &emit_otlp::Otlp, ev: &Ev, n: u64) {
         "abcdefghijklmnopqrstuvwxyz0123456789".chars().cycle().take(ev.payload).collect()
     };
     let seq = [1.0f64, 2.0, 3.5];
+    let seq_int = [1u64, 2, 3];
     let trace_id = emit::TraceId::from_u128(0x0123_4567_89ab_cdef_0123_4567_89ab_cdefu128 + n as u128).unwrap();
     let span_id = emit::SpanId::from_u64(0x0123_4567_89ab_cdefu64 + n).unwrap();
     let mut props: Vec<(&str, emit::Value)> = vec![("marker", emit::Value::from(ev.marker.as_str()))];
@@ -699,12 +707,43 @@ fn emit_one(otlp: &emit_otlp::Otlp, ev: &Ev, n: u64) {
         Kind::Metric => {
             props.push(("evt_kind", emit::Value::from_any(&emit::Kind::Metric)));
             props.push(("metric_name", emit::Value::from("sim_metric")));
+            // "@..." stands for an aggregation that is present but not a string (the value's type is the producer's business)
+            struct ShownAgg;
+            impl std::fmt::Display for ShownAgg {
+                fn fmt(&self, f: &mut std::fmt::Formatter) -> std::fmt::Result {
+                    f.write_str("count")
+                }
+            }
+            static SHOWN: ShownAgg = ShownAgg;
             if let Some(agg) = ev.agg {
-                props.push(("metric_agg", emit::Value::from(agg)));
+                props.push((
+                    "metric_agg",
+                    match agg {
+                        "@null" => emit::Value::null(),
+                        "@int" => emit::Value::from(3i64),
+                        "@bool" => emit::Value::from(true),
+                        "@display" => emit::Value::capture_display(&SHOWN),
+                        text => emit::Value::from(text),
+                    },
+                ));
             }
             match ev.mval {
-                MVal::Number => props.push(("metric_value", emit::Value::from(42i64))),
-                MVal::Sequence => props.push(("metric_value", emit::Value::capture_sval(&seq))),
+                // numbers come in every numeric type
+                MVal::Number => props.push((
+                    "metric_value",
+                    match n % 6 {
+                        0 => emit::Value::from(42i64),
+                        1 => emit::Value::from(1.5f64),
+                        2 => emit::Value::from(u64::MAX),
+                        3 => emit::Value::from(-7i32),
+                        4 => emit::Value::from(0u8),
+                        _ => emit::Value::from(i128::from(i64::MAX) + 1),
+                    },
+                )),
+                MVal::Sequence => props.push((
+                    "metric_value",
+                    if n % 2 == 0 { emit::Value::capture_sval(&seq) } else { emit::Value::capture_sval(&seq_int) },
+                )),
                 MVal::Text => props.push(("metric_value", emit::Value::from("not a number"))),
                 MVal::Missing => {}
             }
@@ -856,7 +895,20 @@ impl Engine for OtlpSim {
             };
             let noisy = (big || medium) && ch.chance(1, 2);
             let agg = if c14 {
-                *ch.pick(&[Some("count"), Some("sum"), Some("last"), Some("min"), Some("max"), None, Some("bogus")])
+                *ch.pick(&[
+                    Some("count"),
+                    Some("sum"),
+                    Some("last"),
+                    Some("min"),
+                    Some("max"),
+                    None,
+                    Some("bogus"),
+                    Some(""),
+                    Some("@null"),
+                    Some("@int"),
+                    Some("@bool"),
+                    Some("@display"),
+                ])
             } else {
                 Some("count")
             };
